@@ -236,3 +236,15 @@ CHECKS["C08"] = {
 NOT_APPLICABLE.pop("C08", None)
 ENGINES.append({"name": "E7 linemodel", "path": "/verif/sdpverif/linemodel.py", "serves_properties": ["C08"],
                 "kind_free_text": "the line machine of parser.py (process_line, comment detection, SET handling, statement assembly, end of parse_data) as an abstract transition function over line classes; the LALR call is intercepted"})
+
+CHECKS["C03"]["text"] += " Statement boundaries (E7, O-split): Parser.process_line is evaluated abstractly on line classes - from the start of the script and from the state left by each kind of statement, a `;`-terminated statement (one-line, multi-line table with / without a clause line) hands over exactly its own text once, skipped statements / GO / SET / blank lines hand nothing over, the line machine is left as at the start of the script, and the last statement of a script is still handed over / reported."
+CHECKS["C03"]["engine"] += " + E7 linemodel (O-split)"
+CHECKS["C03"]["technique"] += "; abstract evaluation of the line machine at statement boundaries"
+CHECKS["C03"]["note"] = "Trusted: PLY's parse() starts from an empty stack and keeps no state but the lexer object. The line machine is decided at line-class level (listed statement shapes); declined: unsupported statements spanning several lines, error recovery on arbitrary unsupported text."
+CHECKS["C05"]["note"] = "Layout is decided at line-class level (E7) for the listed line classes, exemplar scripts and layout variants - not for arbitrary run-time text; what the pre-processor does inside string literals is C07's concern; lines starting with a statement-level word inside a statement are excluded by the property. Trusted: PLY lexer rule ordering, CPython re."
+CHECKS["C05"]["text"] += " Line layout (E7): per-line laws of the line machine in every reachable state (O-line: continuation lines - also lines whose first word merely begins like a statement-level word, or starts with a comma / parenthesis / keyword / `=`-glued word - are appended verbatim with one blank; a line ending with ';' hands over the assembled text without the ';'; blank lines do nothing; leading / trailing blanks do not matter), from which invariance under the position of line breaks follows by induction for `;`-terminated statements; and line formation (O-form: everything parse_data does before the line loop, evaluated on exemplar scripts): CRLF vs LF, tabs vs blanks, amount of blanks, glued vs spaced commas / parentheses, blank lines, trailing blanks and a missing final newline give the same lines."
+CHECKS["C05"]["engine"] += " + E7 linemodel (O-line, O-form)"
+CHECKS["C05"]["technique"] += "; abstract evaluation of the line machine (per-line laws) and of the line formation on exemplar scripts under layout variants"
+for _e in ENGINES:
+    if _e["name"] == "E7 linemodel":
+        _e["serves_properties"] = ["C03", "C05", "C08"]
